@@ -171,7 +171,7 @@ func checkC10(c *CaseC10, fl *Fails) {
 	}
 	got := transform.ConvertExtendedSpatialIDToSpatialIDs(o)
 	z := max64(b.H, b.V)
-	if d := b.H - b.V; d > 20 || d < -10 {
+	if d := b.H - b.V; d >= 18 || d <= -9 {
 		// huge expansion (more than 2^20 IDs): checked in one pass with a bitmap instead of a reference set
 		c10Huge(b, got, fl)
 		return
@@ -255,6 +255,19 @@ func c10Huge(b ref.Box, got []string, fl *Fails) {
 }
 
 func sweepC10(tier string, emit func(*CaseC10)) {
+	// a million and more children whose index range starts / ends exactly at a multiple of 10^6 or 10^7 (z or z+1 a
+	// multiple of 5^6 = 15625 at a zoom difference of 20; 5^7 at 21): decimal roll-overs inside a long run of indices
+	for _, f := range []int64{15624, 15625, 31249, -15625, -15626, 78124} {
+		if tier == "quick" && (f == 15625 || f == -15626) {
+			continue
+		}
+		emit(&CaseC10{Exp: ref.Box{H: 35, X: 1, Y: 2, V: 15, F: f}})
+	}
+	emit(&CaseC10{Exp: ref.Box{H: 34, X: 1, Y: 2, V: 14, F: 15624}})
+	if tier != "quick" {
+		emit(&CaseC10{Exp: ref.Box{H: 35, X: 1, Y: 2, V: 14, F: 78124}})
+		emit(&CaseC10{Exp: ref.Box{H: 35, X: 1, Y: 2, V: 14, F: 15624}})
+	}
 	// very long lists for the two notation conversions (lengths that are not multiples of 8 / 64 / 4096)
 	for _, n := range []int{150000, 131081, 300007} {
 		if tier == "quick" && n == 300007 {
